@@ -174,6 +174,8 @@ def specs(tier):
     add(dict(std="FXD", stdoff=5 * 3600 + 1800, dst=None), None, None)           # fixed offset
     add(dict(std="XST", stdoff=0, dst="XDT", dstoff=2 * 3600), M_(3, 5, 6, 3600), M_(10, 4, 3, 4 * 3600))   # two-hour saving
     add(dict(std="AAA", stdoff=-2 * 3600, dst="BBB", dstoff=0), M_(3, 2, 0), M_(11, 1, 0, 3 * 3600))          # explicit daylight offset of exactly UTC
+    # offsets with a seconds part (local-mean-time style), negative: expressible as tzrange / VTIMEZONE / platform model, not as a TZ string here
+    add(dict(std="LMT", stdoff=-(4 * 3600 + 56 * 60 + 2), dst="LDT", dstoff=-(3 * 3600 + 56 * 60 + 2)), M_(3, 2, 0), M_(11, 1, 0), no_tzstr=True)
     if tier == "thorough":
         add(us, M_(4, 1, 1, 0), M_(10, 5, 5, 2 * 3600 + 30 * 60))
         add(au, ("J", 280, 2 * 3600), ("J", 95, 3 * 3600))
@@ -192,6 +194,8 @@ def cells(tier):
     years = (2024,) if q else (2024, 2023, 2000, 1999, 2100, 2037)
     for si, spec in enumerate(specs(tier)):
         for kind in ("tzstr", "tzrange", "tzlocal"):
+            if kind == "tzstr" and spec.get("no_tzstr"):
+                continue
             if kind == "tzrange" and spec.get("dst"):
                 # the equivalent relativedelta puts the time in standard time; it must stay inside the rule's day
                 te = P.rule_time(spec["end"]) - (P.dstoff(spec) - spec["stdoff"])
